@@ -293,7 +293,7 @@ def machine(rec, tier):
 DEC = re.compile(r"^[+-]?(\d+\.?\d*|\.\d+)([eE][+-]?\d+)?$")
 GOOD_TOK = ["min", "max", "mean", "std", "+", "-", "*", "/", "(", ")", "1", "2.5", "-3", "1e3", "0.5", "10", "+4", ".5", "7."]
 NEAR_MISS = ["max+1", "Min", "MEAN", "mean^2", "sin", "0x10", "", "−2", "^", "%", "median", "std.", "min,", "(max)", "2*3",
-             "1e", "e5", "--1", "pi", "E", "abs", "1,5", "$", "maxx"]
+             "1e", "e5", "--1", "pi", "E", "abs", "1,5", "$", "maxx", "+-", "*/", "/(", "()", "-*", ")(", "+-*/()", "-(", "**"]
 UNJUDGED = ["inf", "nan", "-inf", "Infinity", "1_0", "NaN", " 1", "1_000", "infinity"]
 
 
@@ -369,16 +369,22 @@ def creator_case(draw, tier="quick"):
     field = [[draw(st.one_of(st.integers(-80, 240).map(lambda k: k / 8), st.integers(-80, 240).map(lambda k: k / 8), st.none()))
               for _ in range(nlon)] for _ in range(nlat)]
     three_d = draw(st.booleans())
+    if draw(st.integers(0, 3)) == 0:
+        lats = lats[::-1]  # north-to-south latitude axis, as many gridded products have
+    if draw(st.integers(0, 5)) == 0:
+        lons = lons[::-1]
     # box with edges on or between grid lines that contains >=1 valid cell
     i0, i1 = sorted([draw(st.integers(0, nlat - 1)), draw(st.integers(0, nlat - 1))])
     j0, j1 = sorted([draw(st.integers(0, nlon - 1)), draw(st.integers(0, nlon - 1))])
     off = st.sampled_from([0.0, 0.0, 0.25, 0.5])
-    bbox = [lons[j0] - draw(off), lats[i0] - draw(off), lons[j1] + draw(off), lats[i1] + draw(off)]
+    bbox = [min(lons[j0], lons[j1]) - draw(off), min(lats[i0], lats[i1]) - draw(off), max(lons[j0], lons[j1]) + draw(off),
+            max(lats[i0], lats[i1]) + draw(off)]
     start = dtm.date(draw(st.sampled_from([2019, 2020, 2021])), draw(st.integers(1, 12)), draw(st.integers(1, 28)))
     ndays = draw(st.one_of(st.integers(1, 365), st.sampled_from([1, 1, 2, 7, 28, 31, 364, 365, 90])))
     if draw(st.integers(0, 5)) == 0:
         i1, j1 = i0, j0  # a box holding a single grid cell
         bbox = [lons[j0] - draw(off), lats[i0] - draw(off), lons[j0] + draw(off), lats[i0] + draw(off)]
+        bbox = [min(bbox[0], bbox[2]), min(bbox[1], bbox[3]), max(bbox[0], bbox[2]), max(bbox[1], bbox[3])]
     end = start + dtm.timedelta(days=ndays)
     year = draw(st.sampled_from([2000, 2018, 1999]))
     mid_month = draw(st.booleans())
